@@ -248,7 +248,8 @@ class FirstOrderFD(BaseGradientApproximator):
 
         upper_bounds = upper_bounds[input_indices]
         steps = where(
-            input_perturbations[input_indices, range(n_indices)] >= upper_bounds,
+            input_perturbations[input_indices, range(n_indices)] + step
+            > upper_bounds,
             -step,
             step,
         )
